@@ -25,6 +25,13 @@ type changeJ struct {
 	Patch    []lineJ  `json:"patch"`
 	Comments []string `json:"comments"`
 	Toks     []tokJ   `json:"toks"` // go/scanner tokens of the metavariable section's scratch buffer
+	Minus    versionJ `json:"minus"`
+	Plus     versionJ `json:"plus"` // parse.splitPatch: the two versions of the body
+}
+
+type versionJ struct {
+	Contents []byte   `json:"contents"`
+	Lines    [][2]int `json:"lines"` // (offset in Contents, offset in the patch file)
 }
 
 type tokJ struct {
@@ -118,6 +125,24 @@ func runSplit(name string, src []byte) (res splitResult) {
 		cj.Toks = scanMeta(cj.Meta)
 		res.Changes = append(res.Changes, cj)
 	}
+	func() {
+		fs2 := token.NewFileSet()
+		ms, ps, _ := patch.VerifSplitPatch(fs2, name, src)
+		conv := func(v reflect.Value) versionJ {
+			out := versionJ{Contents: v.FieldByName("Contents").Bytes(), Lines: [][2]int{}}
+			ls := v.FieldByName("Lines")
+			for j := 0; j < ls.Len(); j++ {
+				out.Lines = append(out.Lines, [2]int{int(ls.Index(j).FieldByName("Offset").Int()), offOf(fs2, ls.Index(j).FieldByName("Pos"))})
+			}
+			return out
+		}
+		for i := range res.Changes {
+			if i < len(ms) {
+				res.Changes[i].Minus = conv(reflect.ValueOf(ms[i]))
+				res.Changes[i].Plus = conv(reflect.ValueOf(ps[i]))
+			}
+		}
+	}()
 	func() {
 		defer func() {
 			if r := recover(); r != nil {
